@@ -359,6 +359,66 @@ def collect {C V Out} (env : Env C V Out) : List Str → St Out → List V → S
       | none => collect env t { st with dec := true, errs := st.errs ++ [.dec h] } acc
       | some v => collect env t st (acc ++ [v])
 
+/-! ### the error memory with error VALUES (init.jq:120-131 `_cli_eval_on_expr_error`, :262, :283)
+
+  A jq program can raise any JSON value.  `_cli_eval_on_expr_error` first turns the value into a STRING
+  (`.error` of an object / `tostring`, then `tojson` for whatever is not a string yet), and only then stores it
+  in `_cli_last_expr_error`; the `_finally` chain tests the stored value for jq truthiness.  A string is
+  always truthy, so the memory means "some run-time error occurred" — `loopE` keeps the values to make that
+  a theorem (`Props.C17.exit_ignores_error_value`) instead of a modelling decision. -/
+
+inductive EVal
+  | null | false | true | num | str (s : Str) | arr | obj
+deriving DecidableEq, Repr, Inhabited
+
+/-- jq truthiness: everything but `null` and `false` -/
+def EVal.truthy : EVal → Bool
+  | .null => Bool.false
+  | .false => Bool.false
+  | _ => Bool.true
+
+structure EnvE (Content V Out : Type) where
+  openF : Str → Option Content
+  decode : Content → Option V
+  evalE : V → List Out × Option EVal     -- outputs, and the value raised (if any)
+  render : EVal → Str                    -- the string conversion of init.jq:121-129
+
+/-- forget the error values: only whether the program raised -/
+def EnvE.forget {C V Out} (e : EnvE C V Out) : Env C V Out :=
+  { openF := e.openF, decode := e.decode, eval := fun v => ((e.evalE v).1, (e.evalE v).2.isSome) }
+
+structure StE (Out : Type) where
+  out : List Out := []
+  errs : List ELine := []
+  io : Bool := Bool.false
+  dec : Bool := Bool.false
+  last : EVal := .null                   -- `_cli_last_expr_error`, reset to null at init.jq:262
+
+def StE.toSt {Out} (s : StE Out) : St Out :=
+  { out := s.out, errs := s.errs, io := s.io, dec := s.dec, expr := s.last.truthy }
+
+/-- `store` = what is written to the memory for a raised value: `fun env e => .str (env.render e)` in the
+    code as it is; the seeded variant S2-C17-1 stored the raw value (`fun _ e => e`) -/
+def evalOneE {C V Out} (env : EnvE C V Out) (store : EVal → EVal) (v : V) (st : StE Out) : StE Out :=
+  match env.evalE v with
+  | (outs, none) => { st with out := st.out ++ outs }
+  | (outs, some e) => { st with out := st.out ++ outs, errs := st.errs ++ [.expr], last := store e }
+
+def loopE {C V Out} (env : EnvE C V Out) (store : EVal → EVal) : List Str → StE Out → StE Out
+  | [], st => st
+  | h :: t, st =>
+    match env.openF h with
+    | none => loopE env store t { st with io := Bool.true, errs := st.errs ++ [.io h] }
+    | some c =>
+      match env.decode c with
+      | none => loopE env store t { st with dec := Bool.true, errs := st.errs ++ [.dec h] }
+      | some v => loopE env store t (evalOneE env store v st)
+
+/-- the memory as the code writes it: the rendered string -/
+def storeString {C V Out} (env : EnvE C V Out) : EVal → EVal := fun e => .str (env.render e)
+
+def StE.exit {Out} (c : Codes) (s : StE Out) : Nat := finallyExit c s.io s.dec s.last.truthy
+
 /-! ### the loop BEFORE commit 465c459f (documentation; `Props.C17.inputs_independent_old_false`)
 
   After an io error the catch branch emitted `_input($opts; f)`, i.e. an already DECODED value, which then
